@@ -989,12 +989,24 @@ func (rs *s3ClientStorage) CompleteMultipartUpload(ctx context.Context, bucketNa
 			Parts: mapCompleteMultipartUploadParts(opts.Parts),
 		}
 	}
+	// Conditional completes must be evaluated by the backend that owns the
+	// object, exactly like conditional puts.
+	if opts != nil && opts.IfMatchETag != nil {
+		input.IfMatch = opts.IfMatchETag
+	}
+	if opts != nil && opts.IfNoneMatchStar {
+		input.IfNoneMatch = aws.String("*")
+	}
 	completeMultipartUploadResult, err := rs.s3Client.CompleteMultipartUpload(ctx, input)
 	var notFoundError *types.NotFound
 	if err != nil && errors.As(err, &notFoundError) {
 		return nil, storage.ErrNoSuchBucket
 	}
 	if err != nil {
+		var apiErr smithy.APIError
+		if errors.As(err, &apiErr) && apiErr.ErrorCode() == "PreconditionFailed" {
+			return nil, storage.ErrPreconditionFailed
+		}
 		return nil, err
 	}
 	return &storage.CompleteMultipartUploadResult{
